@@ -1438,6 +1438,34 @@ func rulePrefixAppend(r *Run) {
 				}
 				stale = p.pos(s2.Pos())
 			})
+			// …or the tail was sliced off BEFORE the append and is used after it (following := x[i+1:];
+			// x = append(x[:i], new...); x = append(x, following...)): the slice value still points into
+			// the array the append has just written over
+			if stale == "" {
+				allInstrs(fn, func(in2 ssa.Instruction) {
+					s2, ok := in2.(*ssa.Slice)
+					if !ok || s2 == origin || s2.Low == nil || s2.Referrers() == nil {
+						return
+					}
+					l2, ok := s2.X.(*ssa.UnOp)
+					if !ok || pathString(l2.X) != path {
+						return
+					}
+					before := s2.Block() == ap.Block() && instrIndex(s2) < instrIndex(ap) || s2.Block() != ap.Block() && s2.Block().Dominates(ap.Block())
+					if !before {
+						return
+					}
+					for _, u := range *s2.Referrers() {
+						if u == ssa.Instruction(ap) {
+							continue
+						}
+						later := u.Block() == ap.Block() && instrIndex(u) > instrIndex(ap) || u.Block() != ap.Block() && reachableBlocks(ap.Block(), nil)[u.Block()] && !u.Block().Dominates(ap.Block())
+						if later {
+							stale = p.pos(s2.Pos()) + ", used again at " + p.pos(u.Pos())
+						}
+					}
+				})
+			}
 			r.Check("prefix-append", fmt.Sprintf("%s#%d", shortName(topLevel(fn)), idx), ap.Pos(), stale == "",
 				fmt.Sprintf("%s appends new elements to a prefix x[:k] of %s%s", shortName(fn), path, map[bool]string{true: "; the rest of that slice is not read afterwards", false: " and reads the tail of the same slice afterwards (" + stale + "): the appended elements have already overwritten it in place"}[stale == ""]))
 		})
